@@ -168,8 +168,8 @@ def run(prop: str, tier: str) -> int:
     if prop == "C06":
         sts = shapes(rep, max_nodes=5 if quick else 7, label="shapes")
         run_states(rep, prop, sts, "str", {"all_assign_max": 3 if quick else 5, "forms": "rotate" if quick else "all"}, "c06")
-        if not quick:
-            run_states(rep, prop, sts, "keyed", {"all_assign_max": 4}, "c06")
+        # all data compare equal (skip/stop bookkeeping must go by identity)
+        run_states(rep, prop, sts if not quick else sts[::2], "keyed", {"all_assign_max": 3 if quick else 4}, "c06-eq")
         rep.assumptions = ["SkipBranch is not driven for post-order (documented as unsupported)",
                            "visit() with methods other than pre/post/level is not driven",
                            "UNORDERED/RANDOM are only offered by Tree.iterator; checked as permutations"]
